@@ -125,4 +125,8 @@ FIXED_BY_SUBJECT = {
    ('C14', 'SEQUENCE { a INTEGER, x [5] SEQUENCE (SIZE (2..2)) OF INTEGER OPTIONAL } with x present and empty: the CER and DER encoders accepted (and silently omitted) the member that violates its SIZE constraint, the BER and native encoders refused it (found when seeded change C14f made C14 place constrained lists inside enclosing values and call all four encoders)')],
  "fix: a flat run of constructed headers made the decoder recurse until RecursionError escaped": [
    ('C08', 'b"\\x30\\x02" * 600 (also a0 02, 31 02, 24 02, 23 02, a0 00 runs): nested two deep when the lengths are respected, decoded with one recursion level per header, RecursionError escaped from one-shot and streaming decoders of all three codecs (reported by a seeding sub-agent as a side remark for a0 00; C08 gained arm (viii), flat runs of constructed headers with lying lengths)')],
+ "fix: open-type resolution stored the end-of-octets sentinel as an element of SEQUENCE OF / SET OF ANY": [
+   ('C08', 'decodeOpenTypes=True, indefinite-length container, SEQUENCE OF / SET OF ANY element whose octets are 00 00 (e.g. 30 80 df8768 01 01 30 06 df876a 02 00 00 00 00): the result held the decoder-internal EndOfOctets sentinel object as that element')],
+ "fix: 'Excessive components' error of an indefinite-length SEQUENCE printed the decoded members": [
+   ('C08', 'indefinite-length SEQUENCE { a INTEGER } holding an INTEGER of 1900 octets followed by one component too many (30 80 02 82 07 6c 7f ff.. 02 01 01 00 00), interpreter int->str limit at its default: ValueError escaped from the message formatting instead of PyAsn1Error')],
 }
